@@ -24,8 +24,10 @@ FM = fn('FM', lst('LM', [mp('M1', x=plain('m1'))]))
 SUB = tmpl('sub', [T('S'), V('f3'), V('d')], {'d': plain('D')})
 SUBR = tmpl('subr', [T('S'), Return(N('f3')), T('no')], {'d': plain('D2')})
 
+# (an empty mapping among the elements: a frame like any other -- pushed, and popped)
+FM0 = fn('FM0', lst('LM0', [mp('M1', x=plain('m1')), mp('M0'), mp('M3', x=plain('m3'))]))
 FMN = fn('FMN', lst('LMN', [mp('M1', x=plain('m1')), none(), mp('M3', x=plain('m3'))]))
-NS = {'fmn': FMN, 'nn': none(), 'f1': F(1), 'f2': F(2), 'f3': F(3), 'fo': FO, 'fl': FL, 'fm': FM, 'sub': SUB, 'subr': SUBR,
+NS = {'fmn': FMN, 'fm0': FM0, 'nn': none(), 'f1': F(1), 'f2': F(2), 'f3': F(3), 'fo': FO, 'fl': FL, 'fm': FM, 'sub': SUB, 'subr': SUBR,
       'x': plain('outer-x'), 'a': plain('outer-a'), 'd': plain('outer-d'), 'y': plain('outer-y'),
       'error_type': plain('outer-et')}
 
@@ -51,6 +53,8 @@ def wrap(body, alt):
         With(X('nn'), body, mapping=True),
         With(X('nn'), [T('w')], mapping=True),
         In(N('fmn'), [T('i')] + body, mapping=True),
+        In(N('fm0'), [T('j')] + body + [V('x')], mapping=True),
+        In(N('fm0'), body, mapping=True, start=2, size=2),
         In(N('fl'), body, nopush=True, pre=True),
         Try(body, [(['ValueError'], alt + [V('error_type')])], None),
         Try(body, [(['KeyError'], [T('hk')]), ([], alt)], [V('f3')]),
